@@ -136,7 +136,19 @@ Fixpoint read_final_f (fuel : nat) (meth : bytes) (bufsize : nat) (num1xx : nat)
 Definition h1_exchange_f (meth : bytes) (m : mode) (sizes : list nat) (s : bytes) : option h1_delivery :=
   match read_final_f (S (S max_1xx)) meth br_size 0 s with
   | FinOk r rest =>
-      let b := read_body_f br_size r rest in
+      let b := if is_switch r then switch_body r rest else read_body_f br_size r rest in
       Some {| d_resp := r; d_body := b; d_api := run_mode m (r_code r) sizes (body_reader b) |}
   | _ => None
+  end.
+
+Fixpoint interim_heads_f (fuel : nat) (meth : bytes) (bufsize : nat) (s : bytes) : list (Z * hmap) :=
+  match fuel with
+  | O => []
+  | S f =>
+      match read_response_head_f meth bufsize s with
+      | inl _ => []
+      | inr (r, rest) =>
+          if is_1xx_nonterminal (r_code r) then (r_code r, r_header r) :: interim_heads_f f meth bufsize rest
+          else []
+      end
   end.
